@@ -47,10 +47,31 @@ def run(ctx):
             key = "errored-although-resumable/recv"
         ctx.violation(key, "ring %s: %s at line %d: %s" % (r["config"], r["what"], r["line"], r["detail"]), r)
     watchlib.selftest(ctx, groups, files, {r["tid"] for r in rej})
+    realwire(ctx, 2 if quick else 40)
     ctx.assumptions += [
-        "the client adapter talks to the real server through an in-process stream shim inside the bubble (virtual back-off); real-wire restarts are exercised by C11's stack only",
+        "schedules with exact fault positions run through an in-process stream shim inside the bubble (virtual back-off); the real-wire stage restarts a real server under real time (random outage lengths)",
         "fault = Recv fails with Unavailable and the next n Watch attempts fail; outages are shorter than the retry budget",
     ]
+
+
+def realwire(ctx, rounds):
+    """The real client adapter over a real gRPC connection (unix socket) to a server that is really stopped and started again,
+    with writes before, during and after the outage (harness/c02 TestRealWire); judged by TraceWatch like every other stream."""
+    binary = vlib.go_build_test(ctx, "c02")
+    out = os.path.join(ctx.scratch, "realwire.ndjson")
+    vlib.go_run(ctx, binary, "TestRealWire", {"VERIF_OUT": out, "VERIF_ROUNDS": rounds}, timeout=3000)
+    g = {"initcap": 64, "maxcap": 64, "gap": 4, "behs": []}
+    total, rej = watchlib.judge(ctx, [g], [out])
+    recs = vlib.read_ndjson(out)
+    ctx.cov["traces_validated_against_impl"] += total
+    ctx.cov["realwire_rounds"] = rounds
+    ctx.cov["realwire_server_restarts"] = len({(r["tid"], i) for i, r in enumerate(recs) if r["ev"] == "fault" and r["w"] == 1})
+    ctx.cov["realwire_events_received"] = len([r for r in recs if r["ev"] == "recv"])
+    if not ctx.cov["realwire_server_restarts"]:
+        raise vlib.Infra("real-wire stage executed no server restart")
+    for r in rej:
+        ctx.violation("realwire/%s/%s" % (r["what"], r["record"].get("ev")),
+                      "real gRPC connection, server restarted: %s at line %d: %s" % (r["what"], r["line"], r["detail"]), r)
 
 
 if __name__ == "__main__":
